@@ -350,6 +350,10 @@ class cstruct:
 
     def _make_array(self, type_: T, num_entries: int | Expression | None) -> type[Array[T]]:
         null_terminated = False
+        if isinstance(num_entries, int):
+            # A constant count below zero is no entries, like a count that is computed from other fields
+            num_entries = max(0, num_entries)
+
         if num_entries is None:
             null_terminated = True
             size = None
